@@ -25,7 +25,7 @@ def run(tier, seed, replay=None):
         cases.append({'id': c, 'cmds': [['file', 't.csv', text], ['load', 't.csv', 'DEFAULT'], ['dump', 'DEFAULT']],
                       'expect': expect_dump(den), 'text': text})
     for t in MALFORMED:
-        cases.append({'id': len(cases), 'cmds': [['file', 't.csv', t], ['load', 't.csv', 'DEFAULT'], ['dump', 'DEFAULT']],
+        cases.append({'id': len(cases), 'cmds': [['file', 't.csv', t], ['load', 't.csv', 'DEFAULT']],
                       'expect': None, 'text': t})
 
     def oracle(case, impl):
